@@ -76,9 +76,9 @@ def base_package(key):
     kind = En("Kind", [("ka", 0), ("kb", 1), ("kc", 7)], None, False, True)
     gen = Rec("Pair", [("first", TP("T")), ("second", P("uint16"))], ("T",))
     top = Rec("Top", [("ta", N("Mid")), ("tb", P("date")), ("tc", N("Kind")), ("td", N("Pair", (P("int32"),))), ("te", Opt(P("string"))), ("tf", P(r.choice(nums))),
-                      ("tg", U(((None, P("int32")), (None, P("string")))))])
+                      ("tg", U(((None, P("int32")), (None, P("string"))))), ("tp", N("Pair", (N("Inner"),)))])
     proto = Proto("Evo", [("head", N("Top")), ("count", P(r.choice(nums))), ("label", P("string")), ("mids", S(N("Mid"))), ("maybe", Opt(N("Inner"))),
-                          ("nums", V(P(r.choice(nums)))), ("inners", S(N("Inner"))), ("tail", P("float32"))])
+                          ("nums", V(P(r.choice(nums)))), ("inners", S(N("Inner"))), ("pairs", S(N("Pair", (N("Mid"),)))), ("tail", P("float32"))])
     return Pkg("Evo", [inner, mid, kind, gen, top, proto], [], [], "v0")
 
 
@@ -280,7 +280,8 @@ def run(ctx):
         base = os.path.join(ctx.workdir, "cases", key)
         shutil.rmtree(base, ignore_errors=True)
         newest = chain[-1]
-        labels = ["v%d" % i for i in range(len(chain) - 1)]
+        # version labels whose declared order is not their sorted order (v9, v10, v11) on every other chain
+        labels = ["v%d" % (i + (9 if ci % 2 else 0)) for i in range(len(chain) - 1)]
         # newest with all predecessors
         outs = emit.default_outputs("../out_new", python=False, cpp_opts=cxx.cpp_gen_options({"generateNDJson": False}))
         files = evo.chain_files(chain, outs, None, labels)
@@ -378,7 +379,7 @@ def run(ctx):
                     ctx.count("valueset.out-of-range")
                     continue
                 data = cn.encode_stream(pn, schema_new, vals_n)
-                pr = cxx.run_driver(exe_new, ["Evo", "bin", "bin", "--version", "v%d" % i], data, "plain")
+                pr = cxx.run_driver(exe_new, ["Evo", "bin", "bin", "--version", labels[i]], data, "plain")
                 ctx.ev()
                 ctx.count("write-old")
                 ctx.case((key, i, "write", k))
